@@ -288,6 +288,57 @@ func c08Reassembly(c *Ctx) {
 						}
 					}
 				}
+				if !distinguishes {
+					// or by the error's identity: errors.Is(err, S) / err == S for a sentinel S that
+					// readHeader returns only behind its size < 8 test
+					var sentinels []*ssa.Global
+					bySentinel := func(cond ssa.Value, branch bool) bool {
+						core, neg := normCond(cond)
+						switch x := core.(type) {
+						case *ssa.Call:
+							if calleeName(x) == "errors.Is" && len(x.Call.Args) == 2 {
+								if gl, ok := globalLoad(strip(x.Call.Args[1])); ok && branch != neg {
+									sentinels = append(sentinels, gl)
+									return true
+								}
+							}
+						case *ssa.BinOp:
+							if x.Op == token.EQL || x.Op == token.NEQ {
+								for _, side := range []ssa.Value{x.X, x.Y} {
+									if gl, ok := globalLoad(strip(side)); ok && (branch != neg) == (x.Op == token.EQL) {
+										sentinels = append(sentinels, gl)
+										return true
+									}
+								}
+							}
+						}
+						return false
+					}
+					if pass, _ := mustPass(fn, r, bySentinel); pass && len(sentinels) > 0 {
+						rh := c.Fn("cmd/rdpgw/protocol", "readHeader")
+						okAll, nRet := true, 0
+						for _, hr := range returnsOf(rh) {
+							gl, isG := globalLoad(strip(unspill(hr.Results[3])))
+							if !isG {
+								continue
+							}
+							for _, s := range sentinels {
+								if s != gl {
+									continue
+								}
+								nRet++
+								sizeTest, _ := mustPass(rh, hr, GCmp(func(x ssa.Value, op token.Token, y ssa.Value) bool {
+									k, ok := constInt(y)
+									return ok && k == 8 && op == token.LSS && !isLenOf(x, rh.Params[0])
+								}))
+								if !sizeTest {
+									okAll = false
+								}
+							}
+						}
+						distinguishes = okAll && nRet > 0
+					}
+				}
 				c.Check(distinguishes, rule, fmt.Sprintf("readMessage returns readHeader's error after the %s", stage), r.Pos(), "only for an inconsistent header (size < 8)", "readMessage returns readHeader's error after the "+stage+" without telling 'still incomplete' from 'inconsistent header': a packet that needs one more read ends the tunnel")
 			}
 		}
